@@ -1,8 +1,72 @@
-(* C04 - Concurrent requests behave as if processed one at a time.  (placeholder: theorems follow) *)
-From Chihaya Require Import Model.History Proofs.MemP.
+(* C04 - Concurrent requests behave as if processed one at a time. *)
+From Chihaya Require Import Model.History Model.Conc Proofs.MemP Proofs.RedisP Proofs.ConcP.
 Open Scope Z_scope.
 
+(* ---- memory store *)
 (* the per-swarm steps of an expiry pass compose, in any order, to the whole pass (the pass is not atomic across swarms by design) *)
 Theorem C04_mem_pass_is_per_swarm_steps : forall T sh, swarms (shard_gc T sh) = sm_gc T (swarms sh).
 Proof. exact shard_gc_swarms. Qed.
 Print Assumptions C04_mem_pass_is_per_swarm_steps.
+
+(* ---- Redis store, round-trip granularity.  EVERY schedule of announce-type threads (possibly in the
+   middle of their scripts): the hashes are those of the sequential run of the operations in the order
+   of their membership round-trips, and every counter differs from the sequential one exactly by the
+   counter round-trips still pending *)
+Theorem C04_redis_hashes_equiv_sequential : forall (ts : list rthread) sh sched,
+  Forall rthread_announce ts ->
+  let final := rrun sched (sh, ts) in
+  let seq := red_apply_all (rstarted sched (sh, ts)) (rst sh) in
+  hs (rst final.1) = hs seq /\
+  forall c, r_get c (rst final.1) + rpending c final.2 = r_get c seq + rpending c ts.
+Proof. exact redis_hashes_equiv_sequential. Qed.
+Print Assumptions C04_redis_hashes_equiv_sequential.
+
+(* once all announce operations have finished: membership AND counters are those of a sequential ordering *)
+Theorem C04_redis_quiescent_equiv_sequential : forall (oss : list (list rop)) sh sched,
+  let m0 := (sh, map rop_thread oss) in
+  complete rsem sched m0 ->
+  let final := rrun sched m0 in
+  let seq := red_apply_all (rstarted sched m0) (rst sh) in
+  hs (rst final.1) = hs seq /\ forall c, r_get c (rst final.1) = r_get c seq.
+Proof. exact redis_quiescent_equiv_sequential. Qed.
+Print Assumptions C04_redis_quiescent_equiv_sequential.
+
+(* that ordering is a genuine sequential ordering of the issued operations: a permutation of all of
+   them which keeps every thread's program order *)
+Theorem C04_redis_first_roundtrip_order : forall (oss : list (list rop)) sh sched,
+  let m0 := (sh, map rop_thread oss) in
+  complete rsem sched m0 ->
+  rstarted sched m0 ≡ₚ concat oss /\ forall j os, oss !! j = Some os -> rstarted_by j sched m0 = os.
+Proof. exact redis_first_roundtrip_order. Qed.
+Print Assumptions C04_redis_first_roundtrip_order.
+
+(* the machine runs (non-vacuity): a complete 12-choice schedule of two threads on one swarm *)
+Theorem C04_redis_quiescent_example :
+  let m0 := (rshared_of redis_init, map rop_thread conc_ex_oss) in
+  let final := rrun conc_ex_sched m0 in
+  finishedb final = true /\
+  rstarted conc_ex_sched m0 =
+    [RPutSeeder conc_ex_ih false conc_ex_pk 100; RPutLeecher conc_ex_ih false conc_ex_pk2 101;
+     RGraduate conc_ex_ih false conc_ex_pk2 102; RDelSeeder conc_ex_ih false conc_ex_pk2] /\
+  map_to_list (r_hash (k_swarm false true conc_ex_ih) (rst final.1)) = [(conc_ex_pk, 100)] /\
+  r_hash (k_swarm false false conc_ex_ih) (rst final.1) = ∅ /\
+  red_prom (rst final.1) = (1, 1, 0) /\
+  map (fun t => outs (loc t)) final.2 = [[[1; 1]; [1]]; [[1; 1]; [1; 1; 0]]].
+Proof. exact redis_quiescent_example. Qed.
+Print Assumptions C04_redis_quiescent_example.
+
+(* with an expiry pass among the threads the statement is FALSE of the faithful model (finding F10):
+   a kernel-checked schedule on which the pass removes a member re-announced after the cutoff,
+   although both sequential orderings keep it *)
+Theorem C04_redis_gc_removes_fresh_refuted :
+  exists (h0 : list sop) (ih : list Z) (v6 : bool) (pk : list Z) (T t : Z) (sched : list nat),
+    Forall sop_wf h0 /\ ih_wf ih /\ T < t /\
+    let st0 := run_redis h0 in
+    let final := rrun sched (rshared_of st0, [rgc_thread T; rop_thread [RPutSeeder ih v6 pk t]]) in
+    (exists t0, r_hash (k_swarm v6 true ih) st0 !! pk = Some t0 /\ t0 <= T) /\
+    finishedb final = true /\
+    r_hash (k_swarm v6 true ih) (rst final.1) !! pk = None /\
+    r_hash (k_swarm v6 true ih) (red_gc T (red_put_seeder ih v6 pk t st0)) !! pk = Some t /\
+    r_hash (k_swarm v6 true ih) (red_put_seeder ih v6 pk t (red_gc T st0)) !! pk = Some t.
+Proof. exact redis_gc_removes_fresh_refuted. Qed.
+Print Assumptions C04_redis_gc_removes_fresh_refuted.
